@@ -96,16 +96,20 @@ func (r *InboundRequestSingleFlight) GetOrCreate(ctx *Context, response *GraphQL
 	}
 
 	inflight, shared := shard.m.LoadOrStore(key, request)
+	verifPoint("sfi.loaded", key, verifBool(shared))
 	if shared {
 		request = inflight.(*InflightRequest)
 		request.AddFollower()
+		verifPoint("sfi.registered", key, 0)
 		select {
 		case <-request.Done:
+			verifPoint("sfi.woke", key, 0)
 			if request.Err != nil {
 				return nil, request.Err
 			}
 			return request, nil
 		case <-ctx.ctx.Done():
+			verifPoint("sfi.woke", key, 1)
 			return nil, ctx.ctx.Err()
 		}
 	}
@@ -119,12 +123,15 @@ func (r *InboundRequestSingleFlight) FinishOk(req *InflightRequest, data []byte)
 	}
 	shard := r.shardFor(req.ID)
 	shard.m.Delete(req.ID)
+	verifPoint("sfi.fin.deleted", req.ID, 0)
 	if req.HasFollowers() {
 		// optimization to only copy when we actually have to
 		req.Data = make([]byte, len(data))
 		copy(req.Data, data)
 	}
+	verifPoint("sfi.fin.checked", req.ID, verifBool(req.Data != nil))
 	close(req.Done)
+	verifPoint("sfi.fin.closed", req.ID, 0)
 }
 
 func (r *InboundRequestSingleFlight) FinishErr(req *InflightRequest, err error) {
@@ -133,8 +140,10 @@ func (r *InboundRequestSingleFlight) FinishErr(req *InflightRequest, err error) 
 	}
 	shard := r.shardFor(req.ID)
 	shard.m.Delete(req.ID)
+	verifPoint("sfi.fin.deleted", req.ID, 1)
 	req.Err = err
 	close(req.Done)
+	verifPoint("sfi.fin.closed", req.ID, 1)
 }
 
 func (r *InboundRequestSingleFlight) shardFor(key uint64) *requestShard {
